@@ -10,7 +10,9 @@ PROP = dict(
          "size 0..255 x off_bytes 0..255 x counters around 0/1/2^8/2^16/2^32-1/2^63/2^64-1 x root and ref indices "
          "self/backward/out of range/maximal x d1/d2 combinations x with-hashes x exotic first bytes x pruned branches "
          "too short x CRC right/wrong/absent x trailing bytes x wrong index); random bytes bare and behind each magic; "
-         "deep chains. non-trivial = distinct input byte string",
+         "deep chains, DAG bombs; a deterministic sample of all of these additionally through every string / JSON entry point "
+         "(go.carrier: hex, base64, quoted, 0x-prefixed, raw/url base64, truncated, odd length; degenerate documents "
+         "empty..3 characters and quoting debris; multi-root documents). non-trivial = distinct input byte string",
     trusted_base=[
         "hand model lean/TongoModel/Boc.lean of parseBocHeader / deserializeCellData / DeserializeBoc / "
         "SetTopUppedArray (repaired versions) tied to boc/boc.go by exact comparison of ok <canonical cells, root "
